@@ -221,6 +221,66 @@ class FactDB:
                 cands = [m for m in (members or []) if "d" in m and pred(((m.get("t") or {}).get("c") or ""))]
                 if len(cands) == 1 and cands[0]["n"] != canon and not any(m["n"] == canon for m in (r.get("fields") or []) + (r.get("svars") or [])):
                     ren[cands[0]["d"]] = (cands[0]["n"], canon)
+        # the bundled backends' slot tables: two arrays of the same type, told apart by what impl_register_callback(key, callback)
+        # stores into them (first parameter -> key table, second parameter -> entry-point table)
+        def strip_(o):
+            while isinstance(o, dict) and o.get("k") in ("icast", "cast", "paren"):
+                o = o.get("e")
+            return o
+
+        by_role = {}
+        for f in self.functions:
+            if f.get("sn") != "impl_register_callback" or "body" not in f:
+                continue
+            stack = [f["body"]]
+            while stack:
+                x = stack.pop()
+                if isinstance(x, dict):
+                    if x.get("k") == "bin" and x.get("op") == "=" and isinstance(x.get("l"), dict) and x["l"].get("k") == "idx":
+                        rhs = strip_(x.get("r"))
+                        mem = [m for m in (strip_(x["l"].get("l")), strip_(x["l"].get("r"))) if isinstance(m, dict) and m.get("k") == "member" and "d" in m]
+                        if mem and isinstance(rhs, dict) and rhs.get("k") == "ref" and rhs.get("dk") == "param" and rhs.get("pi") in (0, 1):
+                            role = "callback_unique_keys" if rhs["pi"] == 0 else "callbacks"
+                            by_role.setdefault((f.get("rid"), role), set()).add((mem[0]["d"], mem[0]["n"]))
+                    stack.extend(v for v in x.values() if isinstance(v, (dict, list)))
+                elif isinstance(x, list):
+                    stack.extend(v for v in x if isinstance(v, (dict, list)))
+        name_roles = {}  # (record name, member name as spelled) -> canonical name; applied to every instantiation of that record
+        rec_name = {r["id"]: r["n"] for r in self.records}
+        for (rid, role), ms in by_role.items():
+            if len(ms) == 1:
+                d_, n_ = next(iter(ms))
+                if n_ != role:
+                    ren[d_] = (n_, role)
+                    name_roles[(rec_name.get(rid), n_)] = role
+        # the symbol caches of rlbox_sandbox: two maps of one type, told apart by the lookup function that uses them
+        for fname, role in (("lookup_symbol", "func_ptr_map"), ("internal_lookup_symbol", "internal_func_ptr_map")):
+            per_rec = {}
+            for f in self.functions:
+                if f.get("sn") != fname or "body" not in f or not f["n"].startswith("rlbox::rlbox_sandbox::"):
+                    continue
+                stack = [f["body"]]
+                while stack:
+                    x = stack.pop()
+                    if isinstance(x, dict):
+                        if x.get("k") == "member" and "d" in x and ((x.get("t") or {}).get("c") or "").startswith("std::map<"):
+                            per_rec.setdefault(f.get("rid"), set()).add((x["d"], x["n"]))
+                        stack.extend(v for v in x.values() if isinstance(v, (dict, list)))
+                    elif isinstance(x, list):
+                        stack.extend(v for v in x if isinstance(v, (dict, list)))
+            for rid, ms in per_rec.items():
+                if len(ms) == 1:
+                    d_, n_ = next(iter(ms))
+                    if n_ != role and d_ not in ren:
+                        ren[d_] = (n_, role)
+                        name_roles[(rec_name.get(rid), n_)] = role
+        # a role found through one instantiation (or the template pattern) holds for every instantiation of the same class
+        for r in self.records:
+            have = {m["n"] for m in (r.get("fields") or []) + (r.get("svars") or [])}
+            for m in (r.get("fields") or []) + (r.get("svars") or []):
+                role = name_roles.get((r["n"], m["n"]))
+                if role and "d" in m and m["d"] not in ren and role not in have:
+                    ren[m["d"]] = (m["n"], role)
         self.storage_names = sorted(names)
         self.renamed_members = sorted({"%s->%s" % v for v in ren.values()})
         if not ren:
@@ -309,7 +369,7 @@ BACKENDS = {
     "noop_trans": ["-DVB_NOOP", "-DVB_TRANSITIONS", "-DRLBOX_USE_EXCEPTIONS"],
     "model32_dbg": ["-DRLBOX_ENABLE_DEBUG_ASSERTIONS", "-DRLBOX_USE_EXCEPTIONS"],
 }
-PARTS = ["CONV", "PTR", "NUM", "ARR", "INVOKE"]
+PARTS = ["CONV", "PTR", "NUM", "ARR", "INVOKE", "SCOPE"]
 
 
 def core_specs(backends, parts, thorough=False):
